@@ -27,7 +27,8 @@ RULE = ("seeded scripts: 0..150 appended lines written in chunks that split line
 
 def script(rng, tiny):
     n = rng.choice([0, 1, 3, 10, 40]) if not tiny else rng.choice([5, 20, 60, 150])
-    words = [b"alpha", b"beta x", b"", b"caf\xc3\xa9 \xe2\x82\xad", b"0123456789" * rng.choice([1, 3]), b"warn: q", b"x"]
+    words = [b"alpha", b"beta x", b"", b"caf\xc3\xa9 \xe2\x82\xad", b"0123456789" * rng.choice([1, 3]), b"warn: q", b"x",
+             b"caf\xe9 cr\xe8me", b"\xff\xfe raw"]          # also bytes that are not UTF-8 at all
     data = b"".join(rng.choice(words) + b" %d" % k + b"\n" for k in range(n))
     if rng.random() < 0.4:
         data += b"partial tail"
@@ -54,6 +55,10 @@ def script(rng, tiny):
 
 def _gen_hand(rng, budget, tier):
     yield "c04.perc 100"
+    # a write boundary inside a multi-byte character with the reader's poll in between; bytes that are not UTF-8
+    yield "c04.tail 1048576 100 - - W636166c3,P,Wa920e2,P,W82,P,Wac0a,W6e6578740a"
+    yield "c04.tail 1048576 100 - - W636166e9206372e86d650a,Wfffe0a,P"
+    yield "c04.tail 16 100 - - W636166c3a920e2,P,W82ad20300a7820,W310a"
     for _ in range(budget):
         tiny = rng.random() < 0.3
         m = rng.choice([1048576, 1048576, 16, 64])
